@@ -79,7 +79,7 @@ func newC08Rig(ctx *Ctx, kind string) *c08Rig {
 		rig.path = filepath.Join(dir, "out")
 		script := filepath.Join(dir, "sensor.sh")
 		// the state file holds "<exit code>\n<sleep seconds>\n<output>"
-		cmdScript(script, "read code < "+rig.path+".code; read slp < "+rig.path+".sleep; if [ \"$slp\" != 0 ]; then sleep $slp; fi; cat "+rig.path+"; exit $code")
+		cmdScript(script, "read code < "+rig.path+".code; read slp < "+rig.path+".sleep; if [ \"$slp\" != 0 ]; then sleep $slp; fi; cat "+rig.path+".err >&2; cat "+rig.path+"; exit $code")
 		s, _ := sensors.NewSensor(configuration.SensorConfig{ID: uniqueId("c08s"), Cmd: &configuration.CmdSensorConfig{Exec: script}})
 		rig.sensor = s
 	}
@@ -105,10 +105,17 @@ func (rig *c08Rig) present(e c08Elem) {
 	d := driver
 	d.Rules = nil
 	if rig.kind == "cmd" {
-		code, slp, out := "0", "0", ""
+		code, slp, out, errOut := "0", "0", "", ""
 		switch e.Kind {
 		case "ok":
 			out = fmtReading("cmd", e.Val)
+			if int64(math.Abs(e.Val))%4 == 1 {
+				// diagnostics on stderr do not belong to the reading
+				errOut = "warning: sensor bus busy, retried 2 times\n17\n"
+			}
+		case "stderr-only":
+			// exit 0, nothing on stdout, a number on stderr: no reading
+			out, errOut = "", "0\n"
 		case "exit1":
 			code, out = "1", "55000"
 		case "garbage":
@@ -125,6 +132,7 @@ func (rig *c08Rig) present(e c08Elem) {
 			slp, out = "3", "55000"
 		}
 		_ = os.WriteFile(rig.path, []byte(out+"\n"), 0644)
+		_ = os.WriteFile(rig.path+".err", []byte(errOut), 0644)
 		_ = os.WriteFile(rig.path+".code", []byte(code+"\n"), 0644)
 		_ = os.WriteFile(rig.path+".sleep", []byte(slp+"\n"), 0644)
 		return
@@ -251,7 +259,7 @@ func checkC08(ctx *Ctx, rig *c08Rig, c *c08Case) {
 
 func c08Kinds(sensor string) []string {
 	if sensor == "cmd" {
-		return []string{"ok", "ok", "exit1", "garbage", "nan", "inf", "-inf", "empty"}
+		return []string{"ok", "ok", "exit1", "garbage", "nan", "inf", "-inf", "empty", "stderr-only"}
 	}
 	return []string{"ok", "ok", "missing", "empty", "nonnumeric", "eio", "eacces", "prefix-garbage", "unit-suffix", "exponent", "torn-write", "hex", "blank", "newline"}
 }
